@@ -258,12 +258,23 @@ def run_impl(sql, tgt, src, notnull=False):
         def dump(tbl):
             return sorted([[[v] if v is not None else [] for v in r] for r in conn.cursor().execute(f"select * from {tbl}").fetchall()])
         t_after, s_after = dump("t"), dump("s")
+        # the same statement text once more on the same connection (the data has changed, the text has not)
+        second = None
+        if err is None and not notnull:
+            try:
+                cur.execute(sql)
+                rows2 = cur.fetchall()
+                names2 = list(cur._arrow_table.column_names)  # noqa: SLF001
+                inv2 = {v: k for k, v in KINDS.items()}
+                second = {"counts": [[inv2.get(n, 9), [int(v)] if v is not None else []] for n, v in zip(names2, rows2[0])], "t": dump("t")}
+            except Exception as e:  # noqa: BLE001
+                second = {"err": f"{type(e).__name__}: {str(e)[:120]}"}
         try:
             conn.cursor().execute("select * from merge_candidates").fetchall()
             helper = True
         except Exception:  # noqa: BLE001
             helper = False
-        return {"err": err, "counts": counts, "t": t_after, "s": s_after, "helper": helper}
+        return {"err": err, "counts": counts, "t": t_after, "s": s_after, "helper": helper, "second": second}
     finally:
         fs.duck_conn.close()
 
@@ -329,6 +340,17 @@ def main():
     if core.kernel_failing("Merge", "run_c12", [(cases[i], mo[i]) for i in sample], "C12"):
         raise core.MachineryError("kernel and extracted model disagree on run_c12")
     ck.kernel_checked += len(sample)
+    # second application of the same text: the model applied to the model's own result
+    cases2 = [[c[0], m[0], c[2]] for c, m in zip(cases, mo)]
+    mo2 = core.model_eval("run_c12", cases2)
+    for case, sql, o, m, m2 in zip(cases, sqls, impl, mo, mo2):
+        sec = o.get("second")
+        if not sec or o["err"] or sorted(m[0]) != o["t"] or spec(case[0], case[1], case[2]) is None or spec(case[0], o["t"], case[2]) is None:
+            continue
+        ck.cov["evaluations"] += 1
+        if "err" in sec or sec["t"] != sorted(m2[0]) or sec["counts"] != m2[1]:
+            report("second", f"`{sql}` executed a second time on the same connection (target now {o['t']}): implementation {sec}, model target {sorted(m2[0])} counts {m2[1]}",
+                   {"sql": sql, "target_before_second_run": o["t"], "source": case[2], "impl_second": sec, "model_second": [sorted(m2[0]), m2[1]]}, no_input=True)
     n_dom = n_det = n_nontrivial = 0
     for i, (case, sql, o, m) in enumerate(zip(cases, sqls, impl, mo)):
         m_t, m_counts, m_cands, m_dom, m_spec_t, m_spec_c = sorted(m[0]), m[1], m[2], bool(m[3]), sorted(m[4]), m[5]
